@@ -158,6 +158,42 @@ def run(rep):
         rep.fail("verify-exact", "RangeConstraint::verify_range_constraint",
                  "acceptance differs from R_range. code: %s ; reference: %s" % (
                      explain(S, got) if got is not None else None, explain(S, want) if want is not None else None), site=vrc.loc())
+    params_new(rep, U)
+    # ---- validate
+    S = Session(prog)
+    r = S.eval(val)
+    is_ok = S.alg.nb(S.eng.eq_int(S.eng.discr(r), 0)) if r is not None else None
+    want = None
+    fs = adt_fields(prog, RCP)
+    sig_i = [i for i, f in enumerate(fs) if "Signature" in ty_str(f["t"])]
+    pk_i = [i for i, f in enumerate(fs) if f["t"][0] == "adt" and f["t"][1] == PK]
+    if len(sig_i) == 1 and len(pk_i) == 1:
+        sigs = S.canon(fld(arg(1), sig_i[0]))
+        el = ("E", sigs)
+        a1, a2 = sig_parts(S, el)
+        pk = fld(arg(1), pk_i[0])
+        m = ("array", (("from_int", ("I",)),))
+        rps = R_ps(S, pk, pkr, a1, a2, m, n=1)
+        b = S.alg.bdd
+        want = b.NOT(b.var(("any", ("B", b.NOT(rps)))))
+    if want is not None and is_ok == want and want not in (0, 1):
+        rep.ok("validate-exact", "RangeConstraintParameters::validate", sample="Ok iff forall i<%d R_ps(pk; sig_i, (i))" % U)
+    else:
+        rep.fail("validate-exact", "RangeConstraintParameters::validate", "validate() accepts under %s, reference %s" % (
+            explain(S, is_ok) if is_ok is not None else None, explain(S, want) if want is not None else None), site=val.loc())
+    rep.assumptions += ["unforgeability of the digit signatures and extractability of each digit proof (cryptography)",
+                        "sum_j U^j d_j with d_j in [0,U-1] ranges exactly over [0, U^L - 1] (arithmetic)"]
+
+
+def params_new(rep, U=None):
+    prog = rep.prog
+    pkr = public_key_roles(rep)
+    new = method(prog, RCP, "new")
+    if U is None:
+        U = consts(prog).get("RP_PARAMETER_U")
+    if pkr is None or not rep.anchor("RangeConstraintParameters::new", new):
+        return
+    rep.fn(new)
     # ---- parameters
     skr = secret_key_roles(rep)
     kpp = keypair_parts(prog)
@@ -193,27 +229,3 @@ def run(rep):
         rep.ok("params-new", "RangeConstraintParameters::new", sample="sig_i = (h_i, (x + y*i) h_i) for i in 0..%d, pk = public half of the same key pair" % U)
     else:
         rep.fail("params-new", "RangeConstraintParameters::new", "parameters are not signatures on 0..U-1 in index order under the stored key. %s" % why, site=new.loc())
-    # ---- validate
-    S = Session(prog)
-    r = S.eval(val)
-    is_ok = S.alg.nb(S.eng.eq_int(S.eng.discr(r), 0)) if r is not None else None
-    want = None
-    fs = adt_fields(prog, RCP)
-    sig_i = [i for i, f in enumerate(fs) if "Signature" in ty_str(f["t"])]
-    pk_i = [i for i, f in enumerate(fs) if f["t"][0] == "adt" and f["t"][1] == PK]
-    if len(sig_i) == 1 and len(pk_i) == 1:
-        sigs = S.canon(fld(arg(1), sig_i[0]))
-        el = ("E", sigs)
-        a1, a2 = sig_parts(S, el)
-        pk = fld(arg(1), pk_i[0])
-        m = ("array", (("from_int", ("I",)),))
-        rps = R_ps(S, pk, pkr, a1, a2, m, n=1)
-        b = S.alg.bdd
-        want = b.NOT(b.var(("any", ("B", b.NOT(rps)))))
-    if want is not None and is_ok == want and want not in (0, 1):
-        rep.ok("validate-exact", "RangeConstraintParameters::validate", sample="Ok iff forall i<%d R_ps(pk; sig_i, (i))" % U)
-    else:
-        rep.fail("validate-exact", "RangeConstraintParameters::validate", "validate() accepts under %s, reference %s" % (
-            explain(S, is_ok) if is_ok is not None else None, explain(S, want) if want is not None else None), site=val.loc())
-    rep.assumptions += ["unforgeability of the digit signatures and extractability of each digit proof (cryptography)",
-                        "sum_j U^j d_j with d_j in [0,U-1] ranges exactly over [0, U^L - 1] (arithmetic)"]
